@@ -65,7 +65,7 @@ def run(names, tier, runs, extra_props):
                 env = dict(os.environ, VERIF_EVIDENCE_DIR='/tmp/verif-seeded-evidence')
                 t0 = time.time()
                 o = subprocess.run(cmd, capture_output=True, text=True, env=env)
-                lines = [l for l in o.stdout.splitlines() if l.startswith('violated') or l.startswith('worker process died')]
+                lines = [l for l in o.stdout.splitlines() if l.startswith(('violated', 'worker process died', 'data race', 'a run of seed'))]
                 entry['checks'][p] = {'exit': o.returncode, 'wall_s': round(time.time() - t0, 1), 'tier': tier,
                                       'violations': [l[:300] for l in lines[:6]]}
                 print(f'{name}: {p} {tier} exit={o.returncode} ({len(lines)} violation kinds)')
